@@ -5,3 +5,12 @@ META = {
 }
 SANITY_TARGET = "codemodder.codemods.base_visitor.match_line"
 TARGETS = ["codemodder.codemods.base_visitor.match_line"]
+
+
+def extra_checks(tier="quick", seed=0):
+    import os
+    import codemodder
+    from pyvc import framescan
+    from pyvc.api import REG
+    src = os.path.dirname(os.path.dirname(os.path.abspath(codemodder.__file__)))
+    return framescan.obligations(src, REG.contracts)
